@@ -688,5 +688,5 @@ func TestReaddir(t *testing.T) {
 	if evid.ReplayPath() != "" {
 		t.Skip()
 	}
-	evid.Check(t, "readdir", evid.Scale(4800, 320000), runReaddirProp)
+	evid.Check(t, "readdir", evid.Scale(3600, 240000), runReaddirProp)
 }
